@@ -208,6 +208,26 @@ class SymStr:
         parts.append(SymStr(cur))
         return parts
 
+    def partition(self, sep):
+        parts = self.split(sep, 1)
+        if len(parts) == 1:
+            return parts[0], "", ""
+        return parts[0], sep, parts[1]
+
+    def rpartition(self, sep):
+        if any(ch.isdigit() for ch in sep):
+            raise Inconclusive("rpartition on digits")
+        rep = self.rep()
+        i = rep.rfind(sep)
+        if i < 0:
+            return "", "", self
+        return self[:i], sep, self[i + len(sep):]
+
+    def find(self, sub):
+        if any(ch.isdigit() for ch in sub):
+            raise Inconclusive("find(digit)")
+        return self.rep().find(sub)
+
     def strip(self, chars=None):
         ch = list(self.chars)
         while ch and isinstance(ch[0], str) and ch[0].isspace():
